@@ -280,6 +280,12 @@ func dump(v reflect.Value, seen map[uintptr]bool, sb *strings.Builder) {
 		}
 		sort.Strings(items)
 		sb.WriteString("map{" + strings.Join(items, ", ") + "}")
+	case reflect.Chan:
+		if v.IsNil() {
+			sb.WriteString("nilchan")
+		} else {
+			sb.WriteString(fmt.Sprintf("chan(len=%d,cap=%d)", v.Len(), v.Cap()))
+		}
 	case reflect.Func:
 		if v.IsNil() {
 			sb.WriteString("nilfunc")
